@@ -159,7 +159,7 @@ def run(tier: str) -> int:
     b = families.c01_bounds(tier, lean=True)
     return gc.run_model_check(
         C13(), specs(tier), tier, "exploration",
-        bounds=[{"top": [{"n": n, "modifiers": list(m), "trivia": list(t)} for n, m, t in b["top"]], "contexts": [{"hole_size": h, "trivia": list(t)} for h, t in b["ctx"]],
+        bounds=[{"top": [{"n": n, "modifiers": list(m), "trivia": list(t)} for n, m, t in b["top"]], "contexts": [{"hole_size": h, "trivia": list(t)} for h, t in b["ctx"]], "stack_contexts_also_under": b.get("ctx_stack_under", []),
                  "alphabet": "a A + trivia symbols + newline + é", "start_positions": "every k in 0..len(text)"}],
         rule=families.c01_rule_text() + "; input alphabet extended by '\\n' and 'é' (multi-line, non-ASCII), every start position. Oracle on every rejected (grammar, input, start_pos) in four modes: "
              "furthest_pos == -1 or start_pos <= furthest_pos <= len; keys of furthest_expected/unexpected are rules of the grammar or built-ins and labels are strings; str(), detailed_message(), expected(), expected_labels() do not raise; "
